@@ -67,7 +67,7 @@ PROPS = {
         design_ref="DESIGN.md 5/C08",
         module="Bita.Props.C08",
         level="proof",
-        required_theorems=["http_resume", "http_items_exact_prefix", "fetchRun_requests", "io_reader_sound", "io_reader_complete", "read_at_exact"],
+        required_theorems=["http_resume", "http_items_exact_prefix", "fetchRun_requests", "io_reader_sound", "io_reader_complete", "read_at_exact", "http_read_at_requests"],
         suites=dict(quick=[("l1", "c08-http"), ("l1", "c08-io")], thorough=[("l1", "c08-http"), ("l1", "c08-io")]),
         rule="HTTP: one run of two chunks with every cut offset x budgets x one/two cuts x cut/clean-end (exhaustive) plus "
              "random chunk lists, budgets 0..3 and random scripts of refuse/cut/early-end/full; local: random range lists "
@@ -112,7 +112,7 @@ PROPS = {
         design_ref="DESIGN.md 5/C10",
         module="Bita.Props.C10",
         level="proof",
-        required_theorems=["spec_resync", "fixed_resync", "resync"],
+        required_theorems=["spec_resync", "fixed_resync", "resync", "resync_chunks_in_seed"],
         suites=dict(quick=[("l1", "c10"), ("l1", "hash")], thorough=[("l1", "c10"), ("l1", "hash")]),
         rule="random (P1,P2,S) triples incl. empty prefixes and S starting with window non-zero bytes followed by >= window zeros; both "
              "streams chunked by the real chunker; oracle: identical continuation after the first common boundary >= window into S; "
@@ -278,7 +278,7 @@ PROPS = {
         module="Bita.Props.C06",
         level="proof",
         needs_bita=True,
-        required_theorems=["fetch_exact", "scan_starts_at_zero_fact", "clone_steps_as_modelled"],
+        required_theorems=["fetch_exact", "unchanged_tail_not_fetched", "scan_starts_at_zero_fact", "clone_steps_as_modelled"],
         suites=dict(quick=[("py", "c02_seeds"), ("l1", "c03"), ("l1", "c07")], thorough=[("py", "c02_seeds"), ("l1", "c03"), ("l1", "c07")]),
         rule="as C02; compared: the exact list of fetched (offset,size) ranges beyond the header; oracles: no range twice, nothing fetched when "
              "a seed is the source or the output already holds it (regular file and block device)",
